@@ -166,6 +166,26 @@ def m_strncpy(ex, name, a, at, rt):
     return d
 
 
+def m_memchr(ex, name, a, at, rt):
+    """memchr(s, c, n): pointer to the first byte equal to (unsigned char) c among the first n, or NULL"""
+    p, c, n = a[0], a[1], a[2]
+    n = sx64(n) if n.size() != 64 else n
+    ex.check_access(p, n, "memchr")
+    if p.obj is None:
+        return NULL
+    need_cap(ex, n, "memchr")
+    ex.flush(p.obj)
+    cb = z3.Extract(7, 0, c)
+    base = bv(p.off)
+    for i in range(capn(ex)):
+        I = z3.BitVecVal(i, 64)
+        if ex.e.branch(z3.And(z3.ULT(I, n), z3.Select(p.obj.arr, base + I) == cb)):
+            return ex.padd(p, i)
+        if not ex.feasible(z3.ULT(I + 1, n)):
+            break
+    return NULL
+
+
 def m_malloc(ex, name, a, at, rt):
     n = a[0]
     o = ex.new_obj("malloc", n if conc(n) is None else conc(n), "heap", "malloc")
@@ -363,6 +383,7 @@ def install(ex):
     I["strlen"] = m_strlen
     I["strcpy"] = m_strcpy
     I["strncpy"] = m_strncpy
+    I["memchr"] = m_memchr
     I["malloc"] = m_malloc
     I["calloc"] = m_calloc
     I["free"] = m_free
